@@ -172,6 +172,15 @@ for NonBlockingQueue<SlotType, BUFFER_SIZE, INSTRUMENTS> {
 }
 
 
+/// verification hooks: gives the external harness access to the underlying zero-copy queue
+#[cfg(feature = "verif")]
+impl<SlotType:          Copy+Debug + Send + Sync,
+     const BUFFER_SIZE: usize,
+     const INSTRUMENTS: usize>
+NonBlockingQueue<SlotType, BUFFER_SIZE, INSTRUMENTS> {
+    pub fn verif_base(&self) -> &AtomicZeroCopy<SlotType, OgreArrayPoolAllocator<SlotType, super::atomic_move::AtomicMove<u32, BUFFER_SIZE>, BUFFER_SIZE>, BUFFER_SIZE> { &self.base_queue }
+}
+
 #[cfg(any(test,doc))]
 mod tests {
     //! Unit tests for [non_blocking_queue](super) module
